@@ -53,6 +53,35 @@ def source_hashes() -> Dict[str, str]:
     return out
 
 
+def functions_executed(harness: Callable[[Any], Any]) -> List[str]:
+    """tawazi functions entered while the first path of a harness runs (measured, not declared)."""
+    import threading
+
+    seen = set()
+
+    def prof(frame: Any, event: str, arg: Any) -> None:
+        if event == "call":
+            fn = frame.f_code.co_filename
+            if "/tawazi/" in fn and "/verif/" not in fn:
+                seen.add("%s:%s" % (fn.split("/tawazi/", 1)[1], frame.f_code.co_qualname))
+
+    c = engine.Ctx()
+    engine.base_axioms(c.solver)
+    engine._CTX = c
+    c.begin_path()
+    sys.setprofile(prof)
+    threading.setprofile(prof)
+    try:
+        harness(c)
+    except BaseException:  # noqa: BLE001
+        pass
+    finally:
+        sys.setprofile(None)
+        threading.setprofile(None)  # type: ignore[arg-type]
+        c.end_path()
+    return sorted(seen)
+
+
 def _cov_json(cov: Dict[str, Any]) -> Dict[str, Any]:
     return {k: (len(v) if isinstance(v, (set, frozenset)) else v) for k, v in cov.items()}
 
@@ -81,6 +110,10 @@ def run_check(pid: str, tier: str, level: str, parts: List[Part], assumptions: L
             "part": part.name, "bounds": part.bounds, "stats": r.stats.as_dict(), "wall_s": round(r.wall_s, 2),
             "work_items": r.items, "coverage": _cov_json(r.coverage), "functions_encoded": part.functions,
         }
+        try:
+            rep["functions_executed_on_first_path"] = functions_executed(part.harness)
+        except Exception as e:  # noqa: BLE001
+            rep["functions_executed_on_first_path"] = ["measurement failed: %r" % (e,)]
         total.add(r.stats.as_dict())
         states += len(r.coverage.get("states", ())) if isinstance(r.coverage.get("states"), set) else 0
         transitions += int(r.coverage.get("transitions", 0) or 0)
@@ -238,3 +271,69 @@ def run_check(pid: str, tier: str, level: str, parts: List[Part], assumptions: L
         pid, tier, {0: "HOLDS within bounds", 1: "VIOLATION", 2: "INCONCLUSIVE"}[status], paths, total.checks,
         total.solver_calls, total.solver_s, wall))
     return status
+
+
+def replay_file(pid: str, parts: List[Part], path: str) -> int:
+    """./check <ID> --replay <file>: re-run a stored counterexample (concretely, and on the real pool where applicable)."""
+    with open(path) as f:
+        rec = json.load(f)
+    part = next((p for p in parts if p.name == rec.get("part")), None)
+    if part is None:
+        print("HARNESS-ERROR property=%s replay: part %r of the record is not part of this check/tier" % (pid, rec.get("part")))
+        return EXIT_HARNESS
+    rp = engine.replay(part.harness, rec)
+    print("concrete replay: reproduced=%s %s" % (rp["reproduced"], (rp.get("violation") or {}).get("msg") or rp.get("error") or ""))
+    if part.real_replay is not None:
+        real = part.real_replay(rec)
+        print("real thread pool / event loop replay: %s %s" % (real.get("status"), real.get("violation") or real.get("error") or ""))
+    if rp["reproduced"]:
+        print("VIOLATION property=%s replay=%s" % (pid, path))
+        return EXIT_VIOLATION
+    print("%s: the recorded counterexample does not reproduce on the current tree" % pid)
+    return EXIT_OK
+
+
+# ----------------------------------------------------------------------------------------------
+# engine CH: CrossHair kernels as an extra step of a check
+# ----------------------------------------------------------------------------------------------
+def kernel_extra(pid: str, prefixes: List[str], timeout: int = 40) -> Callable[[], Dict[str, Any]]:
+    def run() -> Dict[str, Any]:
+        import subprocess
+
+        sys.path.insert(0, os.path.join(ROOT, "kernels"))
+        import run as krun  # type: ignore
+
+        res = krun.run(["k_front.py", "k_graph.py"], names=prefixes, timeout=timeout)
+        out: Dict[str, Any] = {"crosshair_conditions": len(res), "crosshair_confirmed": sum(r["verdict"] == "confirmed" for r in res),
+                               "crosshair_inconclusive": [r["kernel"] for r in res if r["verdict"] == "inconclusive"],
+                               "crosshair": [{k: r[k] for k in ("kernel", "verdict", "seconds")} for r in res], "_lines": []}
+        for r in res:
+            if r["verdict"] != "counterexample":
+                continue
+            # believe a CrossHair counterexample only after re-executing the call concretely
+            call = r["output"].split("when calling", 1)[-1].strip().splitlines()[0] if "when calling" in r["output"] else ""
+            code = ("import ast, inspect, sys; sys.path.insert(0, %r); import %s as K\n"
+                    "call = ast.parse(%r).body[0].value; fn = getattr(K, call.func.id)\n"
+                    "args = [ast.literal_eval(a) for a in call.args]\n"
+                    "ba = inspect.signature(fn).bind(*args); env = dict(vars(K)); env.update(ba.arguments)\n"
+                    "doc = inspect.getdoc(fn); post = [l.split('post:', 1)[1].strip() for l in doc.splitlines() if l.strip().startswith('post:')]\n"
+                    "try:\n    env['_'] = fn(*args); ok = all(eval(p, env) for p in post)\nexcept Exception as e:\n    ok = False; print('raised', repr(e))\n"
+                    "print('POST-HOLDS' if ok else 'POST-FAILS')\n") % (os.path.join(ROOT, "kernels"), r["file"][:-3], call)
+            try:
+                p = subprocess.run([os.path.join(ROOT, ".venv", "bin", "python"), "-c", code], capture_output=True, text=True, timeout=60)
+                confirmed = "POST-FAILS" in p.stdout
+                detail = (p.stdout + p.stderr)[-300:]
+            except Exception as e:  # noqa: BLE001
+                confirmed, detail = False, repr(e)
+            if confirmed:
+                path = os.path.join(ROOT, "replays", "%s-kernel-%s-%d.json" % (pid, r["kernel"], int(time.time())))
+                with open(path, "w") as f:
+                    json.dump({"property": pid, "kernel": r["kernel"], "call": call, "crosshair": r["output"], "concrete": detail}, f, indent=1)
+                out["_lines"].append("VIOLATION property=%s replay=%s" % (pid, path))
+                out["_lines"].append("  CrossHair kernel %s: %s" % (r["kernel"], call))
+                out["_status"] = EXIT_VIOLATION
+            else:
+                out["crosshair_inconclusive"].append(r["kernel"] + " (counterexample did not reproduce concretely)")
+        return out
+
+    return run
